@@ -62,6 +62,10 @@ func txnProgram(j int, tx TxnSpec, uniq int) []string {
 	var s []string
 	s = append(s, fmt.Sprintf("ECHO '@B %d';", j))
 	switch tx.Kind {
+	case "create":
+		// several processes create a table of the same name: at most one of them can
+		// commit it, and what that one committed survives the others' failures
+		s = append(s, "CREATE TABLE shared (id, n);", fmt.Sprintf("INSERT INTO shared VALUES (%d, 0);", uniq))
 	case "read":
 		s = append(s, sel(1, "")...)
 	case "inc":
@@ -232,6 +236,20 @@ func genCounterScenario(prop string, seed uint64, tier string, maxProcs int) (*S
 			Format:       "CSV",
 			Quiet:        true,
 		})
+	}
+	if rc := Sub(seed, "c09-create"); prop == "C09" && rc.Bool(0.25) {
+		// the last transaction of two or more processes creates the same table
+		n := 0
+		for p := 0; p < nproc; p++ {
+			if n >= 2 && rc.Bool(0.4) {
+				continue
+			}
+			n++
+			j := len(meta.Txns[p])
+			tx := TxnSpec{Kind: "create", Table: -1, Commit: rc.Bool(0.85)}
+			meta.Txns[p] = append(meta.Txns[p], tx)
+			sc.Procs[p].Program += "\n" + strings.Join(txnProgram(j, tx, uniqKey(p, j)), "\n")
+		}
 	}
 	sc.Knobs = Knobs{RowStride: r.Pick(1, 4, 64), Pool: "lifo"}
 	sc.Sched = GenSched(seed, nproc, 120*nproc)
@@ -566,12 +584,42 @@ func judgeCounterRun(o *Outcome, prop string, sc *Scenario, meta *c09Meta, res *
 			}
 			continue
 		}
+		if txs := meta.Txns[i]; len(txs) > 0 && txs[len(txs)-1].Kind == "create" && (strings.Contains(p.ErrText, "already exists") || strings.Contains(p.ErrText, "file exists") || strings.Contains(p.ErrText, "failed to create lock file") || strings.Contains(p.ErrType, "Lock")) {
+			// the table exists already, or another process is creating it right now
+			o.Stats.probe("create-lost-the-race")
+			continue
+		}
 		o.viol(prop, "failure-kind", "unexpected-error:"+p.ErrType+":"+errClass(p.ErrText),
 			fmt.Sprintf("p%d failed with %s: %s (all tables exist for the whole run; only a lock timeout is a legitimate failure)", i, p.ErrType, firstLine(p.ErrText)))
 	}
 
 	// (b) history per table
 	ntab := len(meta.Rows)
+	var createWinners []int
+	createSeen := false
+	defer func() {
+		if !createSeen {
+			return
+		}
+		f, exists := res.Final["shared"]
+		if !exists {
+			f, exists = res.Final["shared.csv"]
+		}
+		switch {
+		case len(createWinners) > 1:
+			o.viol(prop, "history", "created-table-committed-twice", fmt.Sprintf("%d processes created and committed the same table (keys %v): one of the commits is lost", len(createWinners), createWinners))
+		case len(createWinners) == 1 && !exists:
+			o.viol(prop, "history", "committed-created-table-lost", fmt.Sprintf("a process created table shared, inserted key %d and committed, but the file does not exist after the run (endings: %s)", createWinners[0], strings.Join(outputsShort(res), "; ")))
+		case len(createWinners) == 1:
+			if want := fmt.Sprintf("id,n\n%d,0\n", createWinners[0]); f.Data != want {
+				o.viol(prop, "history", "committed-created-table-changed", fmt.Sprintf("the created table holds %q, its creator committed %q", f.Data, want))
+			} else {
+				o.Stats.probe("created-table-survives")
+			}
+		case exists:
+			o.viol(prop, "history", "uncommitted-created-table-left", "nobody committed the created table, yet it exists after the run: "+f.Data)
+		}
+	}()
 	ops := make([][]porcupine.Operation, ntab)
 	committed := make([]map[string]int, ntab) // "inc:k" / "ins:k" -> count
 	for i := range committed {
@@ -601,6 +649,13 @@ func judgeCounterRun(o *Outcome, prop string, sc *Scenario, meta *c09Meta, res *
 			}
 			if b == nil {
 				continue // never started
+			}
+			if tx.Kind == "create" {
+				if e != nil && tx.Commit {
+					createWinners = append(createWinners, uniqKey(pi, j))
+				}
+				createSeen = true
+				continue
 			}
 			ret := p.EndStep
 			if e != nil {
